@@ -269,7 +269,9 @@ pub fn minimise_schedule(
     rec_knobs.record_schedule = true;
     let (s0, recorded, switches_before) = run(&rec_knobs);
     used += 1;
-    if s0.as_deref() != Some(sig) || recorded.is_empty() {
+    // (executions with very long schedules - a 70 000-instruction subroutine is 4 million decisions - are left to
+    // their seed: reducing them costs minutes per signature)
+    if s0.as_deref() != Some(sig) || recorded.is_empty() || recorded.len() > 300_000 {
         return None;
     }
     let with = |sch: &[u32]| -> ExecKnobs {
